@@ -367,6 +367,54 @@ def bounded_runs(tier, seed):
             ra = _observe(_make(cf, shared=shared).run(u0=u0, t0=0.0, Tend=Tend))
             rec('controller_built_from_dictionaries_an_adaptive_controller_used_before_is_unaffected', cf, ra == r1,
                 'statistics keys only here: ' + str(sorted({k[0][5] if isinstance(k[0], tuple) and len(k[0]) > 5 else k[0] for k in set(ra) ^ set(r1)})[:200]))
+        # (c''') the user's parameter dictionaries are shared with a controller whose sweeper REWRITES its parameters at construction (Runge-Kutta
+        #        sweepers set collocation class, node count, initial guess ...): the dictionaries stay what the user wrote, the observed controller is unaffected
+        if cf['nlev'] == 1 and cf['sweeper'] == 'implicit' and not cf.get('nsweeps') and not cf.get('dt_initial'):
+            import copy
+            from pySDC.implementations.controller_classes.controller_nonMPI import controller_nonMPI as _C
+            from pySDC.implementations.problem_classes.TestEquation_0D import testequation0d as _T
+            from pySDC.implementations.sweeper_classes.Runge_Kutta import BackwardEuler
+            from pySDC.implementations.sweeper_classes.generic_implicit import generic_implicit as _GI
+            from pySDC.implementations.hooks.log_solution import LogSolution as _LS
+
+            lam_ = np.array([-1.0 + 0.5j, -0.2 - 2.0j, -5.0 + 0j])
+            user = dict(problem_params=dict(lambdas=lam_, u0=1.0), sweeper_params=dict(num_nodes=3, quad_type='RADAU-RIGHT', QI=cf['QI'], initial_guess=cf['guess']),
+                        level_params=dict(dt=0.125, restol=1e-9), step_params=dict(maxiter=6))
+            before = copy.deepcopy({k: v for k, v in user.items() if k != 'problem_params'})
+            try:
+                _C(num_procs=1, controller_params=dict(logger_level=40, dump_setup=False), description=dict(problem_class=_T, sweeper_class=BackwardEuler, **user))
+                cu = _C(num_procs=cf['nprocs'], controller_params=dict(logger_level=40, hook_class=[_LS], dump_setup=False, mssdc_jac=False), description=dict(problem_class=_T, sweeper_class=_GI, **user))
+                ru = _observe(cu.run(u0=u0, t0=0.0, Tend=Tend))
+                ok_u, det = ru == r1, 'results differ'
+            except Exception as e:
+                ok_u, det = False, 'construction from the shared dictionaries failed: ' + repr(e)[:120]
+            same_dicts = all(user[k] == before[k] for k in before)
+            rec('controller_built_from_dictionaries_a_Runge_Kutta_controller_used_before_is_unaffected', cf, ok_u and same_dicts, det if not ok_u else 'the user dictionaries were rewritten: ' + str({k: user[k] for k in before if user[k] != before[k]})[:200])
+        # (f) a run that ends in an exception half way (a hook raises after two steps) leaves nothing behind: the next run on the same controller
+        #     is bit-identical to a fresh one (statistics included)
+        from pySDC.core.hooks import Hooks as _H
+
+        class Bomb(_H):
+            armed = [False]
+            seen = [0]
+
+            def post_step(self, step, level_number):
+                super().post_step(step, level_number)
+                Bomb.seen[0] += 1
+                if Bomb.armed[0] and Bomb.seen[0] >= 2:
+                    raise RuntimeError('stop here')
+
+        if cf['guess'] != 'random':  # the random initial guess keeps its generator state across runs anyway (recorded finding of scenarios (b), (b'), (d))
+            cb_ = _make(cf, extra_hooks=[Bomb])
+            Bomb.armed[0], Bomb.seen[0] = True, 0
+            try:
+                cb_.run(u0=u0 * 0.5, t0=0.25, Tend=0.25 + Tend + dt * n)
+                raised = False
+            except RuntimeError:
+                raised = True
+            Bomb.armed[0] = False
+            rb = _observe(cb_.run(u0=u0, t0=0.0, Tend=Tend))
+            rec('run_after_an_aborted_run_on_the_same_controller_is_bit_identical_to_a_fresh_one', cf, raised and rb == r1, f'aborted={raised}; entries {len(rb)} vs {len(r1)}')
         # (d) split at a block boundary
         cs = _make(cf)
         Tmid = dt * n
